@@ -251,6 +251,22 @@ impl Module for M {
                 }
             }
         }
+        // DrawTarget calls on a Framebuffer (9 x 3) with areas that are empty, partly or completely outside (round-4 seed
+        // C08-r4-1: a `fill_solid` fast path that sliced the buffer out of range for a zero-width, tall area)
+        for bits in [1u32, 2, 4, 8, 16, 24, 32] {
+            for order in 0..2 {
+                for mode in 0..4 {
+                    for (x, y) in [(0i64, 0i64), (1, 0), (8, 2), (9, 3), (-1, -1), (3, 1), (-4, 1), (5, -7), (1024, 0), (0, 1024), (-1024, -1024)] {
+                        for (w, h) in [(0i64, 0i64), (0, 9), (9, 0), (1, 1), (3, 2), (9, 3), (10, 4), (0, 1024), (1024, 0), (40, 40)] {
+                            emit(format!("scale.reject fbdraw {} {} {} {} {} {} {}", bits, order, mode, x, y, w, h));
+                        }
+                    }
+                    for (x, y, w, h) in [(i32::MAX as i64, 0i64, 0i64, 5i64), (0, i32::MAX as i64, 5, 0), (i32::MIN as i64, i32::MIN as i64, 1, 1), (i32::MAX as i64, i32::MAX as i64, 1, 1), (i32::MIN as i64, 0, 0, 0)] {
+                        emit(format!("scale.reject fbdraw {} {} {} {} {} {} {}", bits, order, mode, x, y, w, h));
+                    }
+                }
+            }
+        }
         for x in [-5i64, -1, 0, 3, 4, 5, 1024, i32::MAX as i64, i32::MIN as i64] {
             for y in [-1i64, 0, 2, 3, i32::MIN as i64] {
                 for w in [0i64, 1, 4, 5, 1024, u32::MAX as i64] {
@@ -565,6 +581,107 @@ impl Module for M {
                             (16, _) => fb!(Rgb565, RawU16, BigEndianLsb0, Rgb565::new(1, 2, 3)),
                             (_, 0) => fb!(Rgb888, RawU24, LittleEndianMsb0, Rgb888::new(1, 2, 3)),
                             (_, _) => fb!(Rgb888, RawU24, BigEndianLsb0, Rgb888::new(1, 2, 3)),
+                        }
+                    }
+                    "fbdraw" => {
+                        // mode 0 fill_solid, 1 fill_contiguous (64 colours, alternating), 2 draw_iter (corners of the area and
+                        // their outer neighbours), 3 clear. Expected content from plain i64 interval arithmetic.
+                        let bits = t.u32();
+                        let order = t.u32();
+                        let mode = t.u32();
+                        let (x, y, w, h) = (t.i64(), t.i64(), t.i64(), t.i64());
+                        macro_rules! fbd {
+                            ($c:ty, $r:ty, $o:ty, $c1:expr, $c2:expr) => {{
+                                let mut fb = Framebuffer::<$c, $r, $o, 9, 3, { buffer_size::<$c>(9, 3) }>::new();
+                                let zero = fb.pixel(Point::zero()).unwrap();
+                                let area = Rectangle::new(Point::new(x as i32, y as i32), Size::new(w as u32, h as u32));
+                                let mut want: Vec<$c> = vec![zero; 27];
+                                let mut put = |px: i64, py: i64, c: $c| {
+                                    if px >= 0 && px < 9 && py >= 0 && py < 3 {
+                                        want[(py * 9 + px) as usize] = c;
+                                    }
+                                };
+                                alloc_arm(true);
+                                match mode {
+                                    0 => {
+                                        fb.fill_solid(&area, $c1).unwrap();
+                                    }
+                                    1 => {
+                                        fb.fill_contiguous(&area, (0..64).map(|i| if i % 2 == 0 { $c1 } else { $c2 })).unwrap();
+                                    }
+                                    2 => {
+                                        let (x, y, w, h) = (x as i32, y as i32, w as i32, h as i32);
+                                        let pts = [
+                                            Point::new(x, y), Point::new(x.wrapping_sub(1), y), Point::new(x, y.wrapping_sub(1)),
+                                            Point::new(x.wrapping_add(w), y.wrapping_add(h)), Point::new(x.wrapping_add(w).wrapping_sub(1), y.wrapping_add(h).wrapping_sub(1)),
+                                        ];
+                                        fb.draw_iter(pts.iter().map(|p| Pixel(*p, $c2))).unwrap();
+                                    }
+                                    _ => {
+                                        fb.clear($c2).unwrap();
+                                    }
+                                }
+                                let allocs = alloc_arm(false);
+                                match mode {
+                                    0 => {
+                                        for py in 0..3i64 {
+                                            for px in 0..9i64 {
+                                                if px >= x && px < x + w && py >= y && py < y + h {
+                                                    put(px, py, $c1);
+                                                }
+                                            }
+                                        }
+                                    }
+                                    1 => {
+                                        if w > 0 && h > 0 {
+                                            for k in 0..64i64.min(w * h) {
+                                                put(x + k % w, y + k / w, if k % 2 == 0 { $c1 } else { $c2 });
+                                            }
+                                        }
+                                    }
+                                    2 => {
+                                        let wr = |v: i64| v as i32 as i64;
+                                        for (px, py) in [(x, y), (wr(x - 1), y), (x, wr(y - 1)), (wr(x + w), wr(y + h)), (wr(wr(x + w) - 1), wr(wr(y + h) - 1))] {
+                                            put(px, py, $c2);
+                                        }
+                                    }
+                                    _ => {
+                                        for py in 0..3 {
+                                            for px in 0..9 {
+                                                put(px, py, $c2);
+                                            }
+                                        }
+                                    }
+                                }
+                                let mut bad = 0;
+                                for py in 0..3 {
+                                    for px in 0..9 {
+                                        if fb.pixel(Point::new(px, py)) != Some(want[(py * 9 + px) as usize]) {
+                                            bad += 1;
+                                        }
+                                    }
+                                }
+                                ctx.expect(bad == 0, "C08:framebuffer-draw-call-content", || format!("{} cell(s) differ", bad));
+                                ctx.expect(allocs == 0, "C08:heap-allocation", || format!("{}", allocs));
+                                ctx.expect(fb.pixel(Point::new(9, 0)).is_none() && fb.pixel(Point::new(0, 3)).is_none(), "C08:outside-pixel-not-none", || "9,0 / 0,3".into());
+                                format!("ok bad={}", bad)
+                            }};
+                        }
+                        match (bits, order) {
+                            (1, 0) => fbd!(BinaryColor, RawU1, LittleEndianMsb0, BinaryColor::On, BinaryColor::On),
+                            (1, _) => fbd!(BinaryColor, RawU1, BigEndianLsb0, BinaryColor::On, BinaryColor::On),
+                            (2, 0) => fbd!(Gray2, RawU2, LittleEndianMsb0, Gray2::new(2), Gray2::new(1)),
+                            (2, _) => fbd!(Gray2, RawU2, BigEndianLsb0, Gray2::new(2), Gray2::new(1)),
+                            (4, 0) => fbd!(Gray4, RawU4, LittleEndianMsb0, Gray4::new(9), Gray4::new(6)),
+                            (4, _) => fbd!(Gray4, RawU4, BigEndianLsb0, Gray4::new(9), Gray4::new(6)),
+                            (8, 0) => fbd!(Gray8, RawU8, LittleEndianMsb0, Gray8::new(200), Gray8::new(77)),
+                            (8, _) => fbd!(Gray8, RawU8, BigEndianLsb0, Gray8::new(200), Gray8::new(77)),
+                            (16, 0) => fbd!(Rgb565, RawU16, LittleEndianMsb0, Rgb565::new(1, 2, 3), Rgb565::new(30, 20, 10)),
+                            (16, _) => fbd!(Rgb565, RawU16, BigEndianLsb0, Rgb565::new(1, 2, 3), Rgb565::new(30, 20, 10)),
+                            (24, 0) => fbd!(Rgb888, RawU24, LittleEndianMsb0, Rgb888::new(1, 2, 3), Rgb888::new(250, 128, 7)),
+                            (24, _) => fbd!(Rgb888, RawU24, BigEndianLsb0, Rgb888::new(1, 2, 3), Rgb888::new(250, 128, 7)),
+                            (_, 0) => fbd!(Rgb888, RawU24, LittleEndianMsb0, Rgb888::new(4, 5, 6), Rgb888::new(0, 255, 9)),
+                            (_, _) => fbd!(Rgb888, RawU24, BigEndianLsb0, Rgb888::new(4, 5, 6), Rgb888::new(0, 255, 9)),
                         }
                     }
                     "raw" => {
